@@ -16,7 +16,7 @@ from pySDC.implementations.sweeper_classes.generic_implicit import generic_impli
 from pySDC.implementations.sweeper_classes.explicit import explicit
 
 PID = 'C10'
-BOUNDS = {'quick': dict(node_pairs='(2,2) (3,2) (2,1)', levels='2..3', sweepers='implicit explicit', prolongation='values, values+rhs'), 'thorough': dict(node_pairs='+ (3,3) (4,2) (3,1) (5,3)', levels='2..3', middle_level_sweeps='<=2')}
+BOUNDS = {'quick': dict(node_pairs='(2,2) (3,2) (2,1)', node_triples='(3,2,2) (2,2,1)', sweep_counts='(1,2,1) (2,1,1) (1,1,1)', levels='2..3', sweepers='implicit explicit', prolongation='values, values+rhs'), 'thorough': dict(node_pairs='+ (3,3) (4,2) (3,1) (5,3)', levels='2..3', middle_level_sweeps='<=3', fine_sweeps='<=2', node_triples='(3,2,2) (3,2,1) (4,3,2) (2,2,2) (3,3,2)')}
 F = sp.UFProb.F
 
 
@@ -32,7 +32,8 @@ def describe(rep):
         'collocation solution (with an arbitrary inherited tau on three levels). The real restrict -> coarse sweep(s) -> prolong (values or values+rhs) are '
         'executed and an SMT query (UF + NRA) shows that every fine value is unchanged. (b) for arbitrary fine values the coarse defect right after the real '
         'restrict equals R * (fine defect). (c) linear problems, tables as computed by the real code: one real down-coarse-up-fine cycle of the controller '
-        'equals the multigrid-in-time iteration written with explicit matrices inside the query (unknowns defined by equations, solved by the solver).'
+        'equals the multigrid-in-time iteration written with explicit matrices inside the query (unknowns defined by equations, solved by the solver); '
+        'on three levels with per-level sweep counts (middle level: nsweeps[l] sweeps on the way down and on the way up).'
     )
     rep.rule = 'case = (fine nodes, coarse nodes, coarse sweeper, prolongation mode, levels, clause)'
     rep.assume('right-hand side F(u, t) uninterpreted and NON-AUTONOMOUS; implicit solve stub: returns a fresh w with w - a F(w, t) = rhs, and returns the initial guess if that already solves the equation (solver contract, C12)',
@@ -62,6 +63,10 @@ def tasks(tier, seed):
             T.append(('twogrid', Mf, Mc, qd, 1))
         if not quick:
             T.append(('twogrid', Mf, Mc, 'LU', 2))
+    # three levels with per-level sweep counts (middle level sweeps on the way down and up)
+    for Ms, qd, ns in ([((3, 2, 2), 'LU', (1, 2, 1)), ((3, 2, 2), 'IE', (2, 1, 1)), ((3, 2, 2), 'LU', (1, 1, 1)), ((2, 2, 1), 'LU', (1, 1, 1)), ((3, 2), 'IE', (2, 1))] if quick else
+                       [(Ms_, qd_, (a, b, 1)) for Ms_ in ((3, 2, 2), (3, 2, 1), (4, 3, 2), (2, 2, 2), (3, 3, 2)) for qd_ in ('LU', 'IE', 'MIN-SR-S') for a in (1, 2) for b in (1, 2, 3)]):
+        T.append(('multigrid', Ms, qd, ns))
     return T
 
 
@@ -75,6 +80,8 @@ def run_task(rep, task):
         defect_case(rep, task[1], task[2], task[3])
     elif task[0] == 'twogrid':
         twogrid_case(rep, task[1], task[2], task[3], task[4])
+    elif task[0] == 'multigrid':
+        multigrid_case(rep, tuple(task[1]), task[2], tuple(task[3]))
 
 
 def symmat(name, shape, lower=False, pad=True, strict=False):
@@ -517,6 +524,144 @@ def float_twogrid(Mf, Mc, qd, nsf, lam, dtf, env):
     return float(np.abs(got - cur).max())
 
 
+def _mg_run(d, Ms, setv, symbolic):
+    """one down-coarse-up-fine cycle of the REAL controller stage functions on a description; returns fine node values and the tables used"""
+    from pySDC.implementations.controller_classes.controller_nonMPI import controller_nonMPI
+
+    ctl = controller_nonMPI(1, {'logger_level': 50, 'dump_setup': False}, d)
+    S_ = ctl.MS[0]
+    P = S_.levels[0].prob
+    ctl.restart_block([0], [0.0], setv('u0', P))
+    Lf = S_.levels[0]
+    Lf.f[0] = P.eval_f(Lf.u[0], 0.0)
+    for m in range(1, Ms[0] + 1):
+        Lf.u[m] = setv(f'U{m}', P)
+        Lf.f[m] = P.eval_f(Lf.u[m], 0.0)
+    Lf.status.unlocked = True
+    S_.status.iter = 1
+    S_.status.stage = 'IT_DOWN'
+    ctl.it_down([S_])
+    ctl.it_coarse([S_])
+    ctl.it_up([S_])
+    ctl.it_fine([S_])
+    out = [Lf.u[m][0] for m in range(1, Ms[0] + 1)]
+    tabs = dict(Q=[np.array(L.sweep.coll.Qmat, dtype=float)[1:, 1:] for L in S_.levels], QD=[np.array(L.sweep.QI, dtype=float)[1:, 1:] for L in S_.levels],
+                R=[np.array(S_._Step__transfer_dict[(S_.levels[l], S_.levels[l + 1])].__self__.Rcoll, dtype=float) for l in range(len(Ms) - 1)],
+                P=[np.array(S_._Step__transfer_dict[(S_.levels[l], S_.levels[l + 1])].__self__.Pcoll, dtype=float) for l in range(len(Ms) - 1)])
+    return out, tabs
+
+
+def mg_desc(Ms, qd, ns, lam, dtf, prob, space):
+    return dict(problem_class=prob, problem_params={'A': np.array([[lam]])}, sweeper_class=generic_implicit,
+                sweeper_params={'num_nodes': list(Ms), 'quad_type': 'RADAU-RIGHT', 'QI': qd}, level_params={'dt': dtf, 'restol': -1, 'nsweeps': list(ns)},
+                step_params={'maxiter': 3}, space_transfer_class=space)
+
+
+def mg_spec(tabs, Ms, ns, z, u0, U, lin, solve):
+    """the multigrid-in-time cycle the configuration describes, written with the tables only: restriction with FAS correction (inherited on lower
+    levels), ns[l] sweeps on every middle level on the way down AND on the way up, one coarse sweep, prolongation of the coarse correction,
+    ns[0] fine sweeps.  `lin(matrix, vector)` and `solve(level, rhs)` abstract over floats / solver terms."""
+    NL = len(Ms)
+    Q, QD, Rm, Pm = tabs['Q'], tabs['QD'], tabs['R'], tabs['P']
+    cur = {0: list(U)}
+    tau = {0: [0] * Ms[0]}
+    old = {}
+
+    def sweep(l, v):
+        QmQD = Q[l] - QD[l]
+        rhs = [u0 + z * lin(QmQD[m], v) + tau[l][m] for m in range(Ms[l])]
+        return solve(l, rhs)
+
+    for l in range(NL - 1):
+        Ur = [lin(Rm[l][n], cur[l]) for n in range(Ms[l + 1])]
+        QU = [lin(Q[l][m], cur[l]) for m in range(Ms[l])]
+        tau[l + 1] = [z * lin(Rm[l][n], QU) - z * lin(Q[l + 1][n], Ur) + lin(Rm[l][n], tau[l]) for n in range(Ms[l + 1])]
+        old[l + 1] = Ur
+        cur[l + 1] = Ur
+        if l + 1 < NL - 1:
+            for _ in range(ns[l + 1]):
+                cur[l + 1] = sweep(l + 1, cur[l + 1])
+    cur[NL - 1] = sweep(NL - 1, cur[NL - 1])
+    for l in range(NL - 1, 0, -1):
+        diff = [a - b for a, b in zip(cur[l], old[l])]
+        cur[l - 1] = [cur[l - 1][m] + lin(Pm[l - 1][m], diff) for m in range(Ms[l - 1])]
+        if l - 1 > 0:
+            for _ in range(ns[l - 1]):
+                cur[l - 1] = sweep(l - 1, cur[l - 1])
+    for _ in range(ns[0]):
+        cur[0] = sweep(0, cur[0])
+    return cur[0]
+
+
+def multigrid_case(rep, Ms, qd, ns):
+    """three (or two) levels with per-level sweep counts: the real controller cycle against the multigrid-in-time iteration (all fine iterates)"""
+    name = f'multigrid/M{"-".join(map(str, Ms))}/{qd}/ns{"-".join(map(str, ns))}'
+    lam, dtf = -1.25, 0.25
+    c = Ctx()
+    Ctx.cur = c
+    try:
+        u0v = z3.Real('u0')
+        Uv = [z3.Real(f'U{m}') for m in range(1, Ms[0] + 1)]
+        sym = {'u0': u0v, **{f'U{m}': Uv[m - 1] for m in range(1, Ms[0] + 1)}}
+        out, tabs = _mg_run(mg_desc(Ms, qd, ns, lam, dtf, sp.LinProb, sp.Inject), Ms, lambda k, P: sp.mkmesh(P, [SymReal(sym[k])]), True)
+        out = [R(o) for o in out]
+    finally:
+        Ctx.cur = None
+    rep.paths += 1
+    z = rv(frac(lam) * frac(dtf))
+    defs = []
+    cnt = [0]
+
+    def lin(row, vec):
+        return sum(rv(row[j]) * vec[j] for j in range(len(vec)) if row[j] != 0) if any(row[j] != 0 for j in range(len(vec))) else rv(0)
+
+    def solve(l, rhs):
+        cnt[0] += 1
+        W = [z3.Real(f'W{cnt[0]}_{m}') for m in range(len(rhs))]
+        for m in range(len(rhs)):
+            defs.append(W[m] - z * lin(tabs['QD'][l][m], W) == rhs[m])
+        return W
+
+    spec = mg_spec(tabs, Ms, ns, z, u0v, Uv, lin, solve)
+    box = [z3.And(v >= -1, v <= 1) for v in Uv + [u0v]]
+    tol = rv(1e-11)  # the specification uses the same tables; only Q - QD is rounded once more (1e-17)
+    goal = z3.And([z3.And(out[m] - spec[m] <= tol, spec[m] - out[m] <= tol) for m in range(Ms[0])])
+    res, model = prove(goal, defs + box, timeout_ms=120000, name=f'{name}:controller-cycle-equals-multigrid-iteration')
+    rep.ob(f'{name}:controller-cycle-equals-multigrid-iteration', res)
+    if res == 'sat':
+        rep.replayed += 1
+        env = {str(v): float(model_value(model, v)) for v in Uv + [u0v]}
+        dev = float_multigrid(Ms, qd, ns, lam, dtf, env)
+        if dev > 1e-11:
+            rep.violation(f'{PID}/multigrid-iteration/{qd}', f'{name}: real controller cycle deviates from the multigrid-in-time iteration with the configured sweep counts by {dev:.3e}',
+                          {'task': ['multigrid', list(Ms), qd, list(ns)], 'env': env, 'deviation': dev})
+        else:
+            rep.unreproduced(name, {'env': env, 'float_deviation': dev})
+    # sensitivity: a specification with one sweep more on the middle level on the way up must be refuted
+    if len(Ms) == 3 and Ms[1] >= 2 and Ms[2] >= 2 and ns[0] == 1 and ns[1] == 1:  # (further sweeps shrink the difference below the tolerance)
+        cnt[0] = 1000
+        defs_keep = list(defs)
+        ns_bad = (ns[0], ns[1] + 1, ns[2])
+        # (the down-sweeps change too; any difference is a witness that the query sees the sweep counts)
+        spec2 = mg_spec(tabs, Ms, ns_bad, z, u0v, Uv, lin, solve)
+        goal2 = z3.And([z3.And(out[m] - spec2[m] <= tol, spec2[m] - out[m] <= tol) for m in range(Ms[0])])
+        res2, _ = prove(goal2, defs + box, timeout_ms=60000, name=f'{name}:mutated', kind='vacuity')
+        rep.vac(f'{name}:other-sweep-count-refuted', res2, 'sat')
+    rep.sample({'case': name, 'free_variables': 'u0 and all fine node values in [-1,1]', 'tolerance': 1e-11}, limit=6)
+
+
+def float_multigrid(Ms, qd, ns, lam, dtf, env):
+    from harness import sweepspec as ss
+
+    out, tabs = _mg_run(mg_desc(Ms, qd, ns, lam, dtf, ss.FLin, FloatInjectT), Ms, lambda k, P: P.dtype_u(P.init, val=float(env[k])), False)
+    got = np.array([float(o) for o in out])
+    z = lam * dtf
+    lin = lambda row, vec: float(np.dot(np.asarray(row, dtype=float)[: len(vec)], np.asarray(vec, dtype=float)))
+    solve = lambda l, rhs: list(np.linalg.solve(np.eye(len(rhs)) - z * tabs['QD'][l], np.asarray(rhs, dtype=float)))
+    spec = mg_spec(tabs, Ms, ns, z, env['u0'], [env[f'U{m}'] for m in range(1, Ms[0] + 1)], lin, solve)
+    return float(np.abs(got - np.asarray(spec, dtype=float)).max())
+
+
 def replay(path):
     d = json.load(open(path))['replay']
     t = d['task']
@@ -524,6 +669,11 @@ def replay(path):
         dev, _ = float_cycle(tuple(t[1]), t[2], t[3], t[4])
     elif t[0] == 'defect':
         dev = float_defect(t[1], t[2], t[3])
+    elif t[0] == 'multigrid':
+        dev = float_multigrid(tuple(t[1]), t[2], tuple(t[3]), -1.25, 0.25, d['env'])
+        print('deviation', dev)
+        print('REPRODUCED' if dev > 1e-11 else 'not reproduced')
+        return 1 if dev > 1e-11 else 0
     else:
         dev = float_twogrid(t[1], t[2], t[3], t[4], -1.25, 0.25, d['env'])
     print('deviation', dev)
